@@ -4,6 +4,7 @@ import (
 	"strings"
 
 	"verif/core"
+	"verif/model"
 )
 
 // C19 — token positions are exact, ordered and tile the source.
@@ -51,6 +52,27 @@ func init() {
 			all := allAtoms()
 			secs = append(secs, core.Section{Name: "random", N: nrand, Run: func(c *core.Ctx, i int) {
 				run(c, randomAtomString(c.Rng, all, maxb))
+			}})
+			// long multi-line inputs: generated valid templates glued together with noise in between
+			nLong := 300
+			if tier == core.Thorough {
+				nLong = 20000
+			}
+			secs = append(secs, core.Section{Name: "long-multiline", N: nLong, Run: func(c *core.Ctx, i int) {
+				var sb strings.Builder
+				for k := 0; k < 3+c.Rng.Intn(6); k++ {
+					g := newStmtGen(c.Rng, stmtGenOpts{MaxDepth: 1 + c.Rng.Intn(3), Syntax: true, IfHeavy: k%2 == 0, LoopHeavy: k%3 == 0})
+					st := exprLayouts[c.Rng.Intn(len(exprLayouts))].st(c.Rng)
+					sb.WriteString(model.PrintStmts(g.program(2+c.Rng.Intn(4)), st))
+					sb.WriteString([]string{"\n", "\r\n", "\n\n  ", " é中 \n", "\\{{ x }}\n", "{{-- multi\nline --}}\n"}[c.Rng.Intn(6)])
+				}
+				src := sb.String()
+				if c.Rng.Intn(4) == 0 {
+					src = src[:c.Rng.Intn(len(src)+1)]
+				}
+				c.Max("input_bytes", len(src))
+				c.Max("input_lines", strings.Count(src, "\n")+1)
+				run(c, src)
 			}})
 			return secs
 		},
